@@ -145,7 +145,7 @@ def ser_record(sf, rid, text_limit=2500):
     fmt = fmt_of(sf)
     rec = {"t": "ser", "id": rid, "fmt": fmt, "level": "text", "obj": proj(sf), "serst": "ok",
            "text": [], "lexst": "ok", "params": [],
-           "re": {"st": "none", "items": [], "charts": []}, "stable": False, "det": ""}
+           "re": {"st": "none", "items": [], "charts": []}, "stable": False, "det": "", "eq": True}
     try:
         text = str(sf)
         out = io.StringIO()
@@ -192,11 +192,26 @@ def ser_record(sf, rid, text_limit=2500):
         pr = elide_obj(re_, fmt) if rec["level"] == "params" else proj(re_)
         rec["re"] = {"st": "ok", "items": pr["items"], "charts": pr["charts"]}
         try:
+            rec["eq"] = bool(re_ == sf) and not bool(re_ != sf)       # the library's own notion of "an equal simfile"
+        except Exception:  # noqa
+            rec["eq"] = False
+        try:
             rec["stable"] = (str(re_) == text)
         except Exception:  # noqa
             rec["stable"] = False
     except Exception as e:  # noqa
         rec["re"] = {"st": type(e).__name__, "items": [], "charts": []}
+    if fmt == "ssc":
+        # every chart on its own: SSCChart.from_str(str(chart)) is the chart again (note data last)
+        from simfile.ssc import SSCChart
+        rec["chre"] = []
+        for c in list(sf.charts)[:4]:
+            try:
+                c2 = SSCChart.from_str(str(c))
+                items = [{"k": elide(k), "v": elide(v)} for k, v in c2.items()] if rec["level"] == "params" else proj_items(c2)
+                rec["chre"].append({"st": "ok", "items": items})
+            except Exception as e:  # noqa
+                rec["chre"].append({"st": type(e).__name__, "items": []})
     if det_claimed:
         try:
             rec["det"] = fmt_of(simfile.loads(text))
@@ -226,6 +241,8 @@ def rand_text(rng, maxlen=12, meta_weight=0.45, allow_nl=True):
                 out.append("/")
         else:
             out.append(rng.choice(PLAIN))
+        if rng.random() < 0.04 and allow_nl:
+            out.append(rng.choice(["\n \n", "\n\t\n", "\r\n  \r\n", "e\u0301", "\u1112\u1161\u11ab", "\u212b"]))   # blank-only lines; decomposed text
     return "".join(out)
 
 
@@ -248,7 +265,8 @@ def rand_value(rng, maxlen=12):
 KEY_CHARS = "ABCXYZ0189_"
 
 
-KNOWN_KEYS = ["STOPS", "FREEZES", "BGCHANGES", "ANIMATIONS", "TITLE", "BPMS", "ATTACKS", "DISPLAYBPM"]
+KNOWN_KEYS = ["STOPS", "FREEZES", "BGCHANGES", "ANIMATIONS", "TITLE", "BPMS", "ATTACKS", "DISPLAYBPM", "NOTES2", "NOTES", "MUSIC", "BANNER",
+              "BACKGROUND", "JACKET", "CDTITLE", "LYRICSPATH", "VERSION", "OFFSET"]
 
 
 def rand_key(rng, forbid=("NOTES",), allow_meta=True):
